@@ -1998,7 +1998,7 @@ func init() {
 				return Iface{}
 			}
 		}
-		if !isPtr || !types.Identical(pt.Elem(), next.T) {
+		if !isPtr || !jsonCompatible(pt.Elem(), next.T) {
 			m.unsupported("json model: queued value of type %v does not fit target %v", next.T, tgt.T)
 		}
 		// encoding/json semantics for a target that already holds data: keys absent from the JSON
@@ -2274,4 +2274,23 @@ func init() {
 	for _, n := range []string{"Funcs", "Option", "Parse", "Execute"} {
 		I["(*html/template.Template)."+n] = I["(*text/template.Template)."+n]
 	}
+}
+
+// jsonCompatible: the queued value fits the decode target: identical types, or - for harnesses that
+// live in another package than the (unexported) target type - a mirror type with the identical
+// underlying struct (same field names, types and tags), also as slice elements.
+func jsonCompatible(target, queued types.Type) bool {
+	if types.Identical(target, queued) {
+		return true
+	}
+	if ts, ok := target.Underlying().(*types.Slice); ok {
+		if qs, ok := queued.Underlying().(*types.Slice); ok {
+			return jsonCompatible(ts.Elem(), qs.Elem())
+		}
+		return false
+	}
+	if _, ok := target.Underlying().(*types.Struct); ok {
+		return types.IdenticalIgnoreTags(target.Underlying(), queued.Underlying())
+	}
+	return false
 }
